@@ -60,7 +60,7 @@ def run(tier, seed, replay=None):
         go(10000, seed + 1000)
     return ck.finish(
         ob,
-        rule="1-10 beads, 1-3 frames, with and without velocities and forces, orthorhombic / cubic / triclinic boxes, coordinates of both signs, on print "
+        rule="a frame written without velocities (forces) must not come back with non-zero ones. 1-10 beads, 1-3 frames, with and without velocities and forces, orthorhombic / cubic / triclinic boxes, coordinates of both signs, on print "
              "boundaries (ties) and tiny, written by the gro, dump, xyz, pdb and dlph writers and read back by the matching trajectory reader (on a copy of "
              "the topology) and by the format's own topology reader (names); a frame with one atom more or less than the topology; tables with flags and "
              "error column; square and rectangular, non-symmetric matrices; index files with 1-4 ranges",
